@@ -1,6 +1,6 @@
 (* C17 — property theorems only: each restates the full statement and is closed by the lemma proved in Proofs/. *)
 From Coq Require Import ZArith List Bool.
-From NPS Require Import ListAux PySlice NumpySem Scatter BuildIdx XorBroadcast View Index Assign Reduce Scan RaOps Heap Hash HashRun BitArr RLE RLEOps RLE2d DataClass RowsSpec AssignSpec MapSpec Denote RLEMisc BinaryProof RL2Proof RL2Col RL2Ravel RL2Elem RL2Argmax MatrixDecode ColProof RL2ColSum RL2ColCounts RL2Intervals RL2Range RL2RangeStep RL2RangeOpen.
+From NPS Require Import ListAux PySlice NumpySem Scatter BuildIdx XorBroadcast View Index Assign Reduce Scan RaOps Heap Hash HashRun BitArr RLE RLEOps RLE2d DataClass RowsSpec AssignSpec MapSpec Denote RLEMisc BinaryProof RL2Proof RL2Col RL2Ravel RL2Elem RL2Argmax MatrixDecode ColProof RL2ColSum RL2ColCounts RL2Intervals RL2Range RL2RangeStep RL2RangeOpen RL2AnyProof.
 Import ListNotations.
 Open Scope Z_scope.
 
@@ -192,6 +192,31 @@ Theorem C17_rl2_col_range_neg :
          rl2_decode y = map (fun d : list Z => py_getslice 0 d sl) (rl2_decode (of_runs rows)).
 Proof. exact rl2_col_range_neg. Qed.
 Print Assumptions C17_rl2_col_range_neg.
+
+Theorem C17_col_any_is_sweep :
+  forall (x : rl2) (L : Z),
+       r_len x = Some L ->
+       let rows := map2 RL2Any.row_join (r_idx x) (map (map (fun v : Z => negb (v =? 0))) (r_val x)) in
+       let starts := RL2Any.zsort (flat_map (fun r : list Z * list bool => mask_filter (fst r) (snd r)) rows)
+         in
+       let ends0 :=
+         RL2Any.zsort
+           (flat_map (fun r : list Z * list bool => mask_filter (tl (fst r)) (map negb (tl (snd r)))) rows)
+         in
+       RL2Any.col_any x = sweep starts (ends0 ++ repeat L (length starts - length ends0)) L.
+Proof. exact col_any_is_sweep. Qed.
+Print Assumptions C17_col_any_is_sweep.
+
+Theorem C17_sweep_intervals :
+  forall (I : list (Z * Z)) (St En : list Z) (L : Z),
+       Permutation.Permutation St (map fst I) ->
+       Permutation.Permutation En (map snd I) ->
+       zsorted St ->
+       zsorted En ->
+       Forall (fun se : Z * Z => 0 <= fst se /\ fst se < snd se <= L) I ->
+       0 <= L -> decode bool (sweep St En L) = map (covered I) (ap 0 L 1).
+Proof. exact sweep_intervals. Qed.
+Print Assumptions C17_sweep_intervals.
 
 Theorem C17_col_range_row_is_start_to_end :
   forall (ev vs : list Z) (a b : Z),
